@@ -15,6 +15,9 @@ CHECKS = {
  "C08": "VCs over cw1-subkeys Execute/IncreaseAllowance/DecreaseAllowance with cw-utils NativeBalance interpreted from its own MIR: per-denomination exact deduction across all coins and messages of a call, expiry, untouched bystanders, admin-only grants with restart-from-zero on expired entries and saturating decrease, the distinct-denom representation invariant, and a ghost-counter VC for the cumulative spend bound.",
  "C16": "Relational VC: on one arbitrary symbolic state, valid sender and CosmosMsg, query_can_execute and execute_execute([msg]) are both run from MIR and the query's answer must equal the execute's success, for both proxies and every message variant.",
  "C17": "Step VCs for every execute variant of both proxies plus instantiate: the admin list/flag change only in UpdateAdmins/Freeze by a listed admin while mutable, mutable=false is absorbing, allowances/permissions change only by admins or by the subkey's own spend.",
+ "C09": "Step VCs over cw4-group UpdateMembers and cw4-stake Bond/Unbond with cw-storage-plus SnapshotMap/SnapshotItem interpreted from their own MIR: for a symbolic query height h, block height H and arbitrary earlier changelog, one call leaves every at-height answer for h <= H unchanged and makes every answer for h > H the new current value (members and, for cw4-group, total); instantiate base case; TOTAL = sum of members; raw keys published by cw4 evaluated from MIR against the storage layout.",
+ "C10": "Inductive VCs over cw4-stake Bond/Receive/Unbond/Claim (cw-controllers Claims and cw-utils Duration/Expiration from their MIR): only the configured token is accepted, stake changes only for the staker by exactly the amount, one claim per unbond released exactly one period later, Claim pays exactly the matured claims once, ghost holdings >= stakes + claims, member iff stake >= min_bond with weight = exact integer quotient (non-linear, z3).",
+ "C14": "Step VCs for every execute variant of cw4-group and cw4-stake (cw-controllers Admin/Hooks from their MIR): state changes only by the stored admin (or the staker's own bond/unbond), one MemberChangedHook per registered hook in order with identical diffs, and a replay oracle: applying the reported diffs in order to the pre-state membership reproduces each reported old weight and the final membership.",
 }
 PENDING = {}
 ALL = [f"C{i:02d}" for i in range(1, 21)]
